@@ -44,6 +44,11 @@ def run3(cmd, timeout=60, cwd=None, env=None, input=None, stdin=None):
         return 124, ex.stdout or b'', ex.stderr or b''
 
 
+def big_stack(cmd):
+    """wrap a command so that it runs with an unlimited stack (extracted code is not tail recursive)"""
+    return ['sh', '-c', 'ulimit -s unlimited 2>/dev/null || ulimit -s 1000000; exec "$@"', 'sh'] + list(cmd)
+
+
 @contextlib.contextmanager
 def locked(name):
     os.makedirs(WORK, exist_ok=True)
